@@ -409,7 +409,7 @@ def gen(seed, charsigned, n, nargs=4, prefix='f'):
 #   `return e;` (ret conv(e,RET))               exprassign to the return type
 #   `for (init; c; step) body`  (for INIT COND STEP BODY), a missing clause is (skip) / (none)
 STMT_KINDS = ['decl', 'decl-init', 'set', 'opset', 'inc', 'dec', 'expr', 'ret', 'block', 'if', 'ifelse', 'while',
-              'do', 'for', 'break', 'continue', 'skip', 'switch', 'case', 'default', 'call', 'adecl', 'aload', 'astore', 'idx-expr', 'call-expr', 'pload', 'callp']
+              'do', 'for', 'break', 'continue', 'skip', 'switch', 'case', 'default', 'call', 'adecl', 'aload', 'astore', 'idx-expr', 'call-expr', 'pload', 'callp', 'ainit', 'sizeof']
 OPSET = ['mul', 'div', 'mod', 'add', 'sub', 'shl', 'shr', 'and', 'or', 'xor']
 # which jump statements may be generated: 0 none, 1 in a loop, 2 in a switch outside any loop (the `continue` of a
 # switch inside a loop belongs to the loop), 3 in a switch inside a loop
@@ -496,6 +496,26 @@ class Gen2:
                 self.count('call-expr')
                 return ('F', name, ret, ptys, args)
             out.append(cl)
+
+        def sz():
+            # `sizeof` of an object or a type: a constant of type unsigned long; the operand is not evaluated (it may
+            # name an object without value)
+            vs = [k for k in scope if k not in self.ptrs]
+            x = r.random()
+            if vs and x < 0.7:
+                k = r.choice(vs)
+                if k in self.arrs and r.random() < 0.4:
+                    v, txt = SIZE[self.vtys[k]], 'sizeof p%d[0]' % k
+                else:
+                    v = SIZE[self.vtys[k]] * self.arrs.get(k, 1)
+                    txt = r.choice(['sizeof p%d', 'sizeof(p%d)']) % k
+            else:
+                t = r.choice(TYS)
+                v, txt = SIZE[t], 'sizeof(%s)' % CNAME[t]
+            self.count('sizeof')
+            return ('K', v, '(%s)' % txt, True, 'ul')
+        if r.random() < 0.3:
+            out.append(sz)
         return out
 
     def expr(self, scope, depth=None, risky=0.04, impure=False):
@@ -601,6 +621,32 @@ class Gen2:
         if not avail or x < 0.25:
             t = r.choice(TYS)
             n = r.choice([1, 2, 2, 3, 4, 4, 5, 8])
+            if r.random() < 0.45:
+                # `T a[N] = {e0, [3] = e3, e4};` - funcinit: the elements in increasing order, zeros for the others;
+                # the initialisers are evaluated before the array is in scope
+                m = r.randrange(1, n + 1)
+                idxs = sorted(r.sample(range(n), m)) if r.random() < 0.4 else list(range(m))
+                parts, trees, prev = [], {}, -1
+                for j in idxs:
+                    src, e = self.expr(scope, 1, impure=True)
+                    trees[j] = sx(conv(e, t))
+                    if j == prev + 1 and r.random() < 0.8:
+                        parts.append(ctext(src))
+                    else:
+                        parts.append('[%d] = %s' % (j, ctext(src)))
+                    prev = j
+                k = self.newvar(t)
+                self.arrs[k] = n
+                scope.append(k)
+                self.count('adecl')
+                self.count('ainit')
+                out = [('%s p%d[%d] = {%s};' % (CNAME[t], k, n, ', '.join(parts)), '(adecl %d %s %d)' % (k, t, n))]
+                for j in range(n):
+                    self.init.add((k, j))
+                    out.append(('', '(ainit %d %s %d %d %s)' % (k, t, n, j, trees.get(j, '(c %s 0)' % t))))
+                for _ in range(r.choice([0, 1, 1, 2])):
+                    out += self.aload(scope, k)
+                return out
             k = self.newvar(t)
             self.arrs[k] = n
             scope.append(k)
